@@ -1575,9 +1575,8 @@ def _generate(ctx, prog):
             if got != nm:
                 bad.append((e, nm, got))
     if undecided and not bad:
-        ctx.unrecognised("C18.7", g, f"generate: key expression not "
-                         f"evaluable ({undecided[0]})",
-                         key="C18.7:key-is-name")
+        ctx.undecidable("C18.7", g, f"generate: key expression not "
+                        f"evaluable ({undecided[0]})")
     else:
         ctx.ob("C18.7", bad[0][0] if bad else g, not bad,
                f"generate: the key written for --<name> is <name> for all "
